@@ -99,7 +99,8 @@ RichF1(syn, pkg) ==
            ELSE << [XFld("zw", 1, 10, sing, TScalar("float")) EXCEPT !.dflt = "0.1"],
                    [XFld("zu", 1, 11, sing, TScalar("float")) EXCEPT !.dflt = "1e30"],
                    [XFld("zv", 1, 12, sing, TScalar("double")) EXCEPT !.dflt = "1e30"],
-                   [XFld("zq", 1, 13, sing, TRef(Rel(<<"b">>))) EXCEPT !.dflt = "zd"] >>))
+                   [XFld("zq", 1, 13, sing, TRef(Rel(<<"b">>))) EXCEPT !.dflt = "zd"],
+                   [XFld("zt", 1, 14, sing, TScalar("bytes")) EXCEPT !.dflt = "del"] >>))   \* a bytes default with DEL and a control byte
 (* option bases: f1 imports descriptor.proto, declares option extensions and uses them *)
 OptF1(syn, pkg) ==
   LET sing == Singular(syn)
